@@ -430,6 +430,9 @@ func (m *mrCtx) stmt(s ast.Stmt, depth int) {
 		if sel, ok := l.(*ast.SelectorExpr); ok && m.isElement(sel.X) {
 			return
 		}
+		if o := identObj(info, l); o != nil && m.inner[o] {
+			return // a variable declared inside the body (e.g. the index of an inner loop) is iteration-local
+		}
 		m.sens(x.Pos(), "non-keyed update of %s", exprString(l))
 	case *ast.AssignStmt:
 		for _, rhs := range x.Rhs {
